@@ -167,4 +167,21 @@ def clone(node):
             setattr(new, a, getattr(node, a))
     if hasattr(node, "_module"):
         new._module = node._module
+    if hasattr(node, "block_id") and isinstance(node, ast.stmt):
+        new.block_id = node.block_id
     return new
+
+
+class InlineBlock(ast.stmt):
+    """synthetic statement produced by the inliner: the body of an inlined helper that has early returns. Control
+    leaves the block at its end or at an InlineExit with the same block_id (the helper's `return`)."""
+    _fields = ("body",)
+    _attributes = ("lineno", "col_offset", "end_lineno", "end_col_offset")
+    block_id = 0
+
+
+class InlineExit(ast.stmt):
+    """synthetic statement: leave the enclosing InlineBlock `block_id` (an inlined helper's `return`)"""
+    _fields = ()
+    _attributes = ("lineno", "col_offset", "end_lineno", "end_col_offset")
+    block_id = 0
